@@ -381,7 +381,27 @@ impl NoBuildReason {
 
 /// Returns an error if two (different) build statements in `entries` name the same output.
 fn check_duplicate_outputs(entries: &IndexSet<String>) -> Result<()> {
-    let mut producers: IndexMap<&str, &str> = IndexMap::new();
+    // ninja compares canonical paths: `objects/./x.o` and `objects/x.o` are one output
+    fn canonical(path: &str) -> String {
+        let mut parts: Vec<&str> = Vec::new();
+        for part in path.split('/') {
+            match part {
+                "" | "." => {}
+                ".." if parts.last().is_some_and(|last| *last != "..") => {
+                    parts.pop();
+                }
+                _ => parts.push(part),
+            }
+        }
+        let joined = parts.join("/");
+        if path.starts_with('/') {
+            format!("/{joined}")
+        } else {
+            joined
+        }
+    }
+
+    let mut producers: IndexMap<String, &str> = IndexMap::new();
     for entry in entries {
         let Some((outs, _)) = entry
             .strip_prefix("build ")
@@ -390,7 +410,7 @@ fn check_duplicate_outputs(entries: &IndexSet<String>) -> Result<()> {
             continue;
         };
         for out in outs.split(' ').filter(|out| !out.is_empty()) {
-            if producers.insert(out, entry).is_some() {
+            if producers.insert(canonical(out), entry).is_some() {
                 return Err(anyhow!(
                     "\"{out}\" would be produced by more than one build statement"
                 ));
